@@ -301,6 +301,7 @@ def _evaluated_before_use(ctx: Ctx, cls, it: FunctionInfo, tags: list, ranks: di
         return Sym(fv.tag + "()")
 
     itp = Interp(ctx.prog, cls, lambda *_: None, call_model, max_depth=5, max_traces=8)
+    itp.instantiate_classes = True      # small helper objects of the repository (an ordering, a record) are followed
     itp.sym_result = sym_result
     itp.on_start = lambda: (state["evaluated"].clear(), state.__setitem__("early", None))
     p = it.params
@@ -339,6 +340,7 @@ def _reserved_slots(ctx: Ctx, cls, itf: FunctionInfo) -> tuple[Optional[bool], s
             return None
 
         itp = Interp(ctx.prog, cls, lambda *_: None, call_model, max_depth=5, max_traces=4)
+        itp.instantiate_classes = True      # small helper objects of the repository (an ordering, a record) are followed
         itp.on_start = asked.clear
         p = itf.params
         env = {"self": Sym("self"), p[1]: Sym("problem"), p[2]: Sym("evaluator"), p[3]: Sym("representation"), p[4]: Sym("random"),
@@ -380,6 +382,7 @@ def _passes_whole(ctx: Ctx, cls, itf: FunctionInfo) -> tuple[Optional[bool], str
         return None
 
     itp = Interp(ctx.prog, cls, lambda *_: None, call_model, max_depth=5, max_traces=8)
+    itp.instantiate_classes = True      # small helper objects of the repository (an ordering, a record) are followed
     itp.on_start = got.clear
     p = itf.params
     env = {"self": Sym("self"), p[1]: Sym("problem"), p[2]: Sym("evaluator"), p[3]: Sym("representation"), p[4]: Sym("random"),
